@@ -82,7 +82,7 @@ theorem locateBinaries_noPanic' (e : PathEnv) (paths : List Str) (ms : List Mapp
   unfold locateBinaries locateBinariesG
   apply NoPanic.bind (locateAll_noPanic e paths ms)
   intro ms' _ site
-  cases ms' <;> simp [idx] <;> split <;> simp [idx]
+  cases ms' <;> simp <;> split <;> simp [idx]
 
 theorem set_noPanic (pf : Str → Bool) (c : Cfg) (f : Field) (v : Str) (hk : f.kind.supported = true) :
     NoPanic (set pf c f v) := by
